@@ -114,7 +114,7 @@ func (g *gen) badTx() TxSpec {
 			t.InKind = 3 // someone else's output, own signature
 		}
 	case 2:
-		t.InKind = []int{1, 2, 4, 5, 7, 8}[r.Intn(6)]
+		t.InKind = []int{1, 2, 4, 5, 7, 8, 9, 9}[r.Intn(8)]
 	}
 	return t
 }
